@@ -94,6 +94,13 @@ func (hs *clientHandshakeStateTLS13) decompressCert(m utlsCompressedCertificateM
 		return nil, fmt.Errorf("unsupported algorithm (%d)", m.algorithm)
 	}
 
+	if m.uncompressedLength > maxHandshakeCertificateMsg {
+		// Do not allocate for a declared length that no acceptable certificate
+		// message can have (a few bytes can announce up to 16 MiB).
+		c.sendAlert(alertBadCertificate)
+		return nil, fmt.Errorf("decompressed certificate message of length %d bytes exceeds maximum of %d bytes", m.uncompressedLength, maxHandshakeCertificateMsg)
+	}
+
 	rawMsg := make([]byte, m.uncompressedLength+4) // +4 for message type and uint24 length field
 	rawMsg[0] = typeCertificate
 	rawMsg[1] = uint8(m.uncompressedLength >> 16)
